@@ -354,12 +354,16 @@ int pick_setter_value(Rng &r, Setter s) {
 
 } // namespace
 
-Plan gen_hist_plan(uint64_t seed, bool oom, int focus) {
+const Pool &pool_for_seed(uint64_t seed) {
   static uint64_t cached_seed = ~0ull;
   static Pool cached;
   uint64_t pool_seed = seed >> 8;
   if (cached_seed != pool_seed) { cached = make_pool(pool_seed); cached_seed = pool_seed; }
-  const Pool &pool = cached;
+  return cached;
+}
+
+Plan gen_hist_plan(uint64_t seed, bool oom, int focus) {
+  const Pool &pool = pool_for_seed(seed);
   Rng r(seed * 0xD1342543DE82EF95ull + 7);
   Plan plan;
   plan.seed = seed;
